@@ -21,4 +21,4 @@ var _ = factory.ChfConfig // the contracts below mention the configuration
 //@   requires [C18 C20] factory.ChfConfig != nil && factory.ChfConfig.Configuration != nil && factory.ChfConfig.Configuration.AbmfDiameter != nil && factory.ChfConfig.Configuration.AbmfDiameter.Tls != nil
 //@   ensures ghostLiveConns == old(ghostLiveConns)
 //@   ensures assumed GhostRequests >= old(GhostRequests)
-//@   modifies global(&GhostRequests)
+//@   modifies global(&GhostRequests), field(ccr, DestinationRealm), field(ccr, DestinationHost)
